@@ -109,6 +109,10 @@ def apply_codes(state, codes, unk=None):
         elif c < 0:
             # empty parameter (ECMA default 0 = reset, or ignored) / non-numeric parameter: everything set so far is open
             unk.update(SLOTS)
+            if c == -2:
+                # a non-numeric parameter (blank-padded number, sub-parameters ...) may itself be read as a code - even as a
+                # group introducer - so the roles of all following codes are open as well
+                poisoned = True
             i += 1
         elif c in EXT:
             slot = EXT[c]
@@ -325,6 +329,8 @@ def self_test():
     assert c3[0][1] == (('bold', 1), ('fg', 31), ('ul', 4)) and c3[0][2] == {'fg'}, c3[0]
     assert c3[1][2] == frozenset(SLOTS) - {'ital'} and dict(c3[1][1])['ital'] == 3
     assert c3[2][1] == () and c3[2][2] == frozenset()
+    c5 = run('\x1b[ 58;5;9m5', track_unknown=True)[0]
+    assert c5[0][2] == frozenset(SLOTS), c5
     c4 = run('\x1b[38;5;;4ma', track_unknown=True)[0]
     assert c4[0][2] == frozenset(SLOTS), c4
     assert len(SLOTS) == 14 and set(DIRTY) == set(SLOTS)
